@@ -748,6 +748,8 @@ def subjects_for(draw, ast, xpath, flags, count, xml_only=False, extra_chars=())
                 s = draw(st.sampled_from([s + '\n', '\n' + s, s[:-1], s + '\n\n']))
         else:
             s = ''.join(draw(st.lists(char_st, min_size=0, max_size=6)))
+        if xml_only:
+            s = ''.join(c for c in s if ok(c))      # xs:string values consist of XML characters
         out.append(s)
     return out
 
